@@ -235,6 +235,20 @@ def run_triple(ctx, p):
                   lambda: '%s with integer values: packed form gives dtype kinds %s, separate scalars give %s' % (e['name'], kinds(pk[1]), kinds(sc_[1])))
     ctx.judge('triple', same(packed[1], scal[1]), dict(sig, kind='call_forms_differ'),
               lambda: '%s(%s): packed vector gives %s, separate scalars give %s' % (e['name'], v, core.short(getattr(packed[1], 'data', packed[1]), 300), core.short(getattr(scal[1], 'data', scal[1]), 300)))
+    # the same with some of the numbers exactly zero (x alone, y alone, ...: a test such as `if not (y or theta)` reads a zero as "not given")
+    import itertools as _it
+    for keep in _it.product((True, False), repeat=len(v)):
+        if all(keep) or not any(keep):
+            continue
+        vz = np.where(np.array(keep), v, 0.0)
+        pz = attempt(e, [vz.tolist()] + list(args[1:]), kwargs, None)
+        sz = attempt(e, [float(x) for x in vz] + list(args[1:]), kwargs, None)
+        if pz[0] != sz[0]:
+            ctx.bad('triple', dict(sig, kind='call_forms_disagree', zeros=''.join('x' if k_ else '0' for k_ in keep)),
+                    '%s(%s): packed -> %s, separate scalars -> %s' % (e['name'], vz, core.short(pz[1], 200), core.short(sz[1], 200)))
+        elif pz[0] == 'ok':
+            ctx.judge('triple', same(pz[1], sz[1]), dict(sig, kind='call_forms_differ', zeros=''.join('x' if k_ else '0' for k_ in keep)),
+                      lambda: '%s(%s): packed vector gives %s, separate scalars give %s' % (e['name'], vz, core.short(getattr(pz[1], 'data', pz[1]), 300), core.short(getattr(sz[1], 'data', sz[1]), 300)))
     # one of the separate scalars as a single-precision NumPy number (a value read from a float32 array): the number is the same,
     # so is the result -- to double precision, whatever the element type the first argument arrived in
     v32 = np.array(v)
@@ -557,6 +571,8 @@ def run(ctx):
             if 'order' in e['tags']:
                 for bo in BAD_ORDERS:
                     drive(RUNNERS, ctx, 'options', dict(base, key='order', value=bo, which='order'))
+                # ... and with every angle exactly zero (the result would be the identity whatever the order: the name is still checked)
+                drive(RUNNERS, ctx, 'options', dict(base, key='order', value=BAD_ORDERS[int(rng.integers(len(BAD_ORDERS)))], which='order', zero=True))
                 for go in ['zyx', 'xyz', 'yxz', 'vehicle', 'arm', 'camera']:
                     # documented names must be accepted
                     o = attempt(e, args, dict(kwargs, order=go), recv)
